@@ -15,13 +15,15 @@ Record state := mkS { cur : nat;                              (* current version
 
 Definition writes (n : nat) (s : state) : state := mkS (cur s + n) (mem s) (disk s).
 
-(* fixA: record the mtime sampled BEFORE the read; fixB: judge a disk entry by the time recorded in it *)
+(* fixA: record an mtime sampled BEFORE the read (Grammar.parse stats again right before file_io.read());
+   fixB: judge a disk entry by the time recorded in it as well *)
 Definition full_parse (fixA : bool) (p1 : nat) (w2 w3 : nat) (s : state) : state * nat :=
+  let p1' := mt (cur s) in                            (* file_io.get_last_modified() before the read *)
   let s := writes w2 s in
   let v := cur s in                                   (* file_io.read() *)
   let s := writes w3 s in
   let p2 := mt (cur s) in                             (* file_io.get_last_modified() in try_to_save_module *)
-  let ct := if fixA then p1 else p2 in
+  let ct := if fixA then p1' else p2 in
   (mkS (cur s) (Some (v, ct)) (Some (v, ct, mt (cur s))), v).
 
 Definition parse (fixA fixB : bool) (w1 w2 w3 : nat) (s : state) : state * nat :=
@@ -78,7 +80,7 @@ Proof.
   intros -> Hc H. unfold full_parse in H. inversion H; subst; clear H. simpl.
   split; [|lia].
   split; simpl; intros v ct; [intros E|intros pm E]; inversion E; subst;
-    (split; [simpl; lia|exists c0; split; [lia|reflexivity]]).
+    (split; [simpl; lia|exists (cur s); split; [lia|reflexivity]]).
 Qed.
 
 Lemma parse_ok w1 w2 w3 s s' v :
